@@ -507,39 +507,34 @@ func (x *Exec) appendBuiltin(fr *Frame, ins ssa.Instruction, c *ssa.CallCommon, 
 	oldLen, oldCap := x.w.sLen(s), x.w.sCap(s)
 	newLen := x.bvOp("bvadd", oldLen, addLen)
 	fits := x.w.bvule(newLen, oldCap)
-	// result: in place if fits, else fresh array with unknown cap >= newLen
+	// Result: in place if it fits, else a fresh array. The fresh array is
+	// modelled with the same offset as the old slice and a row equal to the
+	// old row (cells outside the slice window are unobservable), so both
+	// cases are "old row updated on [off+len, off+newLen)".
 	r := x.allocRef(st, "append")
 	newCap := x.w.Fresh("appcap", SBV(64))
 	x.assume(ts.And(x.w.bvule(newLen, newCap), x.w.bvult(newCap, x.w.lenBound())))
 	x.assume(x.w.bvult(newLen, x.w.lenBound())) // memory is finite
 	arr := ts.Ite(fits, x.w.sArr(s), r)
-	off := ts.Ite(fits, x.w.sOff(s), ts.BV(0, 64))
+	off := x.w.sOff(s)
 	cp := ts.Ite(fits, oldCap, newCap)
-	// contents: a fresh row constrained pointwise for the common cases of 0/1 appended elements,
-	// otherwise through a quantified fact.
 	_, rowSort, _ := srt.arrParts()
 	oldRow := ts.Select(h, x.w.sArr(s))
 	var newRow *Term
 	if one, ok := x.singleElem(fr, c.Args[1]); ok {
-		// append(s, e): precise
-		base := ts.Ite(fits, oldRow, x.shiftRow(st, oldRow, x.w.sOff(s), oldLen, rowSort))
-		newRow = ts.Store(base, x.bvOp("bvadd", off, oldLen), one)
+		newRow = ts.Store(oldRow, x.bvOp("bvadd", off, oldLen), one)
 	} else {
 		nr := x.w.Fresh("approw", rowSort)
-		i := ts.Bound("i", SBV(64))
-		// elements below oldLen preserved; appended ones copied; other cells of an in-place row preserved
-		pres := ts.Quant("forall", []*Term{i}, ts.Implies(x.w.bvult(i, oldLen),
-			ts.Eq(ts.Select(nr, x.bvOp("bvadd", off, i)), ts.Select(oldRow, x.bvOp("bvadd", x.w.sOff(s), i)))))
 		j := ts.Bound("j", SBV(64))
 		app := ts.Quant("forall", []*Term{j}, ts.Implies(x.w.bvult(j, addLen),
 			ts.Eq(ts.Select(nr, x.bvOp("bvadd", off, x.bvOp("bvadd", oldLen, j))), ts.Select(srcRow, x.bvOp("bvadd", srcOff, j)))))
 		k := ts.Bound("k", SBV(64))
 		lo := x.bvOp("bvadd", off, oldLen)
 		hi := x.bvOp("bvadd", off, newLen)
-		frame := ts.Quant("forall", []*Term{k}, ts.Implies(ts.And(fits, ts.Or(x.w.bvult(k, lo), x.w.bvule(hi, k))),
+		frame := ts.Quant("forall", []*Term{k}, ts.Implies(ts.Or(x.w.bvult(k, lo), x.w.bvule(hi, k)),
 			ts.Eq(ts.Select(nr, k), ts.Select(oldRow, k))))
-		x.assume(ts.And(pres, app, frame))
-		newRow = nr
+		x.assume(ts.And(app, frame))
+		newRow = ts.Ite(ts.Eq(addLen, ts.BV(0, 64)), oldRow, nr)
 	}
 	st.heap[n] = ts.Store(h, arr, newRow)
 	return x.w.mkSlice(arr, off, newLen, cp)
